@@ -41,18 +41,31 @@ def _job(a):
     obs.write(cfg, "%s_span=%d\n%s_thresh=%d\nalign_on_tabstop=%s\nindent_columns=4\nindent_with_tabs=0\noutput_tab_size=%d\nnl_max=0\n"
               "eat_blanks_before_close_brace=false\neat_blanks_after_open_brace=false\n" % (pre, c["span"], pre, c["thresh"], str(c["tabstop"]).lower(), TAB))
     rc, so, se = sh([unc, "-c", cfg, "-q", "-l", "C", "-f", src], cwd=tmp, timeout=20)
+
+    def columns(text):
+        body = [l for l in obs.decode(text).split("\n")[2:] if l.strip() and l.strip() not in ("}", "};")]
+        if len(body) != len(c["prog"]):
+            return None
+        res = []
+        for l, ln in zip(body, c["prog"]):
+            m = re.search(r"(<<=|\+=|=)", l) if ln["asg"] else None
+            res.append(m.start() + 1 if m else 0)
+        return res
+    cols = []
+    again = []
+    if rc == 0:
+        cols = columns(so)
+        if cols is None:
+            rc, cols = 97, []
+        elif c.get("twice"):
+            # the binary formats its own output once more (sp_assign = ignore keeps the blanks the first run wrote)
+            obs.write(src, so)
+            rc2, so2, se2 = sh([unc, "-c", cfg, "-q", "-l", "C", "-f", src], cwd=tmp, timeout=20)
+            again = (columns(so2) or []) if rc2 == 0 else []
     os.unlink(src)
     os.unlink(cfg)
-    cols = []
-    if rc == 0:
-        body = [l for l in obs.decode(so).split("\n")[2:] if l.strip() and l.strip() not in ("}", "};")]
-        if len(body) != len(c["prog"]):
-            rc = 97
-        else:
-            for l, ln in zip(body, c["prog"]):
-                m = re.search(r"(<<=|\+=|=)", l) if ln["asg"] else None
-                cols.append(m.start() + 1 if m else 0)
-    return {"id": "%s|%d" % (how, i), "how": how, "rc": rc, "prog": c["prog"], "span": c["span"], "thresh": c["thresh"], "tabstop": c["tabstop"], "cols": cols}
+    return {"id": "%s|%d" % (how, i), "how": how, "rc": rc, "prog": c["prog"], "span": c["span"], "thresh": c["thresh"], "tabstop": c["tabstop"], "cols": cols,
+            "again": again, "predicted_unstable": bool(c.get("twice"))}
 
 
 def run(ctx):
@@ -88,10 +101,24 @@ def run(ctx):
         ctx.model_violation("Align", "AlignSim", rs)
     deep = [e for e in rs.emitted if len(e["prog"]) >= 4]
     ctx.cov["programs_from_simulation"] = len(deep)
+    # programs on which Align.tla says a second run moves an operator again (Stable violated: only with a threshold)
+    open(os.path.join(d, "AlignUnst.cfg"), "w").write(hdr + "  MaxLines = 3\n  Widths = {1, 4, 8}\n  Lens = {1, 2}\n  Breaks = {1, 2, 3}\n  Spans = {0, 1, 2}\n"
+                                                      "  Threshs <- DefThreshs\nINVARIANTS EmitUnstable\nCHECK_DEADLOCK FALSE\n")
+    ru = tlc_retry("Align", "AlignUnst", cwd=d, workers=1, timeout=1800)
+    if ru.error:
+        ctx.error("AlignUnst: " + ru.error)
+    unstable = [dict(e, twice=True) for e in ru.emitted]
+    open(os.path.join(d, "AlignUnstSim.cfg"), "w").write(hdr + "  MaxLines = 6\n  Widths = {1, 3, 5, 8, 12}\n  Lens = {1, 2, 3}\n  Breaks = {1, 2, 3}\n  Spans = {1, 2, 3}\n"
+                                                         "  Threshs <- WideThreshs\nINVARIANTS EmitUnstable\nCHECK_DEADLOCK FALSE\n")
+    rus = tlc_retry("Align", "AlignUnstSim", cwd=d, workers=4, simulate=300 if quick else 3000, depth=7, seed=ctx.seed, timeout=1800)
+    unstable += [dict(e, twice=True) for e in rus.emitted if len(e["prog"]) >= 4]
+    ctx.cov["programs_predicted_unstable_by_tlc"] = len(unstable)
+    ctx.rng.shuffle(unstable)
     ctx.rng.shuffle(cases)
     ctx.rng.shuffle(deep)
     # programs on which the skipped list decides: always replayed
-    pick = cases[:2500 if quick else 60000] + deep[:2500 if quick else 40000]
+    # every tenth stable program is formatted twice as well (the model says: nothing moves)
+    pick = [dict(c, twice=(k % 10 == 0)) for k, c in enumerate(cases[:2500 if quick else 60000] + deep[:2500 if quick else 40000])] + unstable[:800 if quick else 20000]
     tmp = ctx.work.sub("align")
     jobs = [(unc, tmp, i, c, "func" if i % 3 else "enum") for i, c in enumerate(pick) if not (i % 3 == 0 and any(ln["len"] != 1 for ln in c["prog"] if ln["asg"]))]
     evs = pmap_proc(_job, jobs, nproc=14)
@@ -119,8 +146,13 @@ def run(ctx):
                               {"kind": "align", "case": e})
             for dn in rep["drift"]:
                 ctx.drift.append({"module": "Align", "kind": dn, "how": e["how"], "prog": e["prog"], "span": e["span"], "thresh": e["thresh"],
-                                  "tabstop": e["tabstop"], "observed": e["cols"], "expected": rep.get("expected")})
+                                  "tabstop": e["tabstop"], "observed": e["cols"], "expected": rep.get("expected"),
+                                  "again_observed": e["again"], "again_expected": rep.get("again")})
     ctx.cov["columns_differing_from_model"] = len(ctx.drift)
+    tw = [e for e in ok if e["again"]]
+    ctx.cov["formatted_twice"] = len(tw)
+    ctx.cov["second_run_moved_an_operator"] = sum(1 for e in tw if e["again"] != e["cols"])
+    ctx.cov["second_run_differs_from_model"] = sum(1 for x in ctx.drift if x["kind"] == "SecondRunAsModel")
     ctx.cov["distinct_nontrivial"] = len({json.dumps([e["prog"], e["span"], e["thresh"], e["tabstop"], e["how"]]) for e in ok if any(c_ for c_ in e["cols"])})
     ctx.cov["rule"] = ("Align.tla: AlignStack transcribed; every program <= 3 lines over 3 widths x 2 operator lengths x 3 break counts x span 0..2 x "
                        "thresh {0, 3, -3} x align_on_tabstop model-checked for the group contracts and emitted; deeper programs (<= 7 lines, 5 widths, "
